@@ -265,3 +265,10 @@ OBLIGATIONS = [Obligation(
                  "the engine accepts any method it is sent unless the solver picks an error reply",
                  "log statements removed at import"],
 )]
+
+MANIFEST = {
+    "level": "model_checking",
+    "text": "Bounded exhaustive symbolic execution (CrossHair/z3) of the real FromFrontend.save_method coroutines (directly and through the REST endpoint function), advanced by hand across their await on a fake dispatcher: every interleaving of 2 (quick) / 3 (thorough) concurrent save requests with symbolic stored/base versions and solver-chosen engine replies is covered path by path.",
+    "note": "Trusted: CrossHair int/bool models, z3, the hand scheduler in props/agg_common2.py (one suspension per engine round-trip; asyncio primitives such as a lock are served by a minimal loop object). Version numbers are solver ints that render as a fixed token when formatted into exception texts. More than 3 concurrent saves and more than one engine are outside the claim.",
+    "technique": "symbolic execution of the real coroutines (CrossHair + z3), solver-chosen schedule, bounded exhaustive, counterexample replay on the unmodified code",
+}
